@@ -543,6 +543,50 @@ func main() {
 		fail("the freshness workers made no progress")
 	}
 
+	// after a RESTART: templates restored from an old file (stamped long ago), and the first re-definition of each of them arrives
+	// while a lookup of that very template is under way (one round per key; whatever a lookup does about an old entry, a
+	// definition whose announcement has completed is the one every later lookup sees)
+	{
+		const nAged = 3000
+		ipA := net.IPv4(198, 51, 110, 9).To4()
+		sa10, sa9 := ipfix.GetCache(filepath.Join(dir, "absent")), netflow9.GetCache(filepath.Join(dir, "absent"))
+		for k := 0; k < nAged; k++ {
+			ipfix.NewDecoder(ipA, ipfixTemplateMsg(4000+k, versionFields(1))).Decode(sa10)
+			netflow9.NewDecoder(ipA, nf9TemplateMsg(4000+k, versionFields(1))).Decode(sa9)
+		}
+		aged(filepath.Join(dir, "restart10.json"), sa10.Dump)
+		aged(filepath.Join(dir, "restart9.json"), sa9.Dump)
+		ra10, ra9 := ipfix.GetCache(filepath.Join(dir, "restart10.json")), netflow9.GetCache(filepath.Join(dir, "restart9.json"))
+		rpcA := ipfix.NewRPC(ra10)
+		for k := 0; k < nAged && atomic.LoadUint64(&bad) == 0; k++ {
+			tid := 4000 + k
+			var goFlag int32
+			done := make(chan struct{})
+			go func() {
+				for atomic.LoadInt32(&goFlag) == 0 {
+				}
+				if k%2 == 0 {
+					var tr ipfix.TemplateRecord
+					rpcA.Get(ipfix.RPCRequest{ID: uint16(tid), IP: ipA}, &tr)
+				} else {
+					lookup10(ra10, ipA, tid)
+				}
+				lookup9(ra9, ipA, tid)
+				close(done)
+			}()
+			atomic.StoreInt32(&goFlag, 1)
+			ipfix.NewDecoder(ipA, ipfixTemplateMsg(tid, versionFields(2))).Decode(ra10)
+			netflow9.NewDecoder(ipA, nf9TemplateMsg(tid, versionFields(2))).Decode(ra9)
+			<-done
+			if got := lookup10(ra10, ipA, tid); got != 2 {
+				fail("ipfix: after a restart on an old cache file, version 2 of template %d was announced while a lookup of it was under way; a lookup begun after the announcement had completed sees version %d", tid, got)
+			}
+			if got := lookup9(ra9, ipA, tid); got != 2 {
+				fail("netflow v9: after a restart on an old cache file, version 2 of template %d was announced while a lookup of it was under way; a lookup begun after the announcement had completed sees version %d", tid, got)
+			}
+		}
+	}
+
 	// superseding: after a re-announcement that changes ONLY the scope part of an options template, lookups and
 	// data decoding must use the new definition (a "refresh" fast path that compares too little would keep the old one)
 	sup := net.ParseIP("192.0.2.77").To4()
